@@ -108,7 +108,7 @@ def plan_C04(tier):
         a.job("asan", 30000 if q else 300000, timeout=900),
     ]
     if not q:
-        jobs.append(a.job("miri", 160, shards=16, params={"max_order": 7}, timeout=1800))
+        jobs.append(a.job("miri", 160, shards=16, params={"max_order": 7, "huge_every": 0}, timeout=1800))
     return dict(
         jobs=jobs,
         rule="case = (abstract digraph of 18 families, order 1-20, instantiated in one or all of the five types, empty/single/multiple distinct sources); Bfs and BfsDist sequences and distances() compared with reference BFS levels "
@@ -147,7 +147,7 @@ def plan_C06(tier):
         a.job("asan", 30000 if q else 300000, timeout=900),
     ]
     if not q:
-        jobs.append(a.job("miri", 160, shards=16, params={"max_order": 7}, timeout=1800))
+        jobs.append(a.job("miri", 160, shards=16, params={"max_order": 7, "huge_every": 0}, timeout=1800))
     return dict(
         jobs=jobs,
         rule="case = (digraph of 18 families, order 1-20, one of five types, empty/single/multiple distinct sources); Dfs, DfsDist, DfsPred sequences and predecessors() are judged by an online validity checker of the depth-first preorder rule "
@@ -310,7 +310,7 @@ def plan_C13(tier):
     )
 
 
-C14_CASES = 7 * 136 + 147 + 3 + 13
+C14_CASES = 7 * 136 + 159 + 3 + 13 + 56
 
 
 def plan_C14(tier):
@@ -333,7 +333,7 @@ def plan_C14(tier):
         what="closed-form comparison, exhaustive for the stated parameter ranges; tiling monitor",
         min_distinct=900,
         exhaustive=True,
-        min_feats={"inadmissible": 13, "complete": 136, "wheel": 136, "biclique": 147},
+        min_feats={"inadmissible": 13, "complete": 136, "wheel": 136, "biclique": 159, "second_call_after_a_different_order": 56},
     )
 
 
